@@ -288,6 +288,89 @@ fn history_case(g: &mut Gen, cfg: &PicCfg) -> Verdict {
     }
 }
 
+/// The same histories delivered through sources that misbehave the way pipes and sockets do:
+/// short reads, `Interrupted`, and transient failures (`WouldBlock` / `TimedOut` / `Other`) on
+/// scheduled `read` calls. A call that fails on such a failure is repeated (up to four times).
+/// Whatever the data and however it arrives, every call must return.
+fn failing_source_case(g: &mut Gen, cfg: &PicCfg) -> Verdict {
+    let (opts, steps, mut labels) = gen_history(g, cfg);
+    let chunk = g.range(1, 16) as usize;
+    let n = g.range(2, 24) as usize;
+    let schedule: Vec<u8> = (0..n).map(|_| *g.pick(&[0u8, 0, 0, 1, 1, 2, 3])).collect();
+    g.describe(|| json!({"history": describe(opts, &steps), "bytes_per_read": chunk, "schedule (0,1 deliver; 2 Interrupted; 3 transient failure)": schedule}));
+    let mut st = H263State::new(options_from_bits(opts));
+    let mut log = CallLog::new();
+    let mut failed_calls = 0usize;
+    for (i, step) in steps.iter().enumerate() {
+        let (bytes, calls) = match step {
+            Step::Cleanup => {
+                if let Err(p) = guard(|| st.cleanup_buffers()) {
+                    return Verdict::fail(format!("step {}: cleanup_buffers panicked: {}", i, p));
+                }
+                continue;
+            }
+            Step::Decode(b) => (b, 1usize),
+            Step::Stream(b, c) => (b, *c),
+        };
+        let src = crate::io::Flaky::new(&bytes[..], chunk, schedule.clone(), true);
+        let transients = src.transients.clone();
+        let mut r = H263Reader::from_source(src);
+        let mut c = 0;
+        let mut repeats = 0;
+        while c < calls {
+            // the memory exclusion needs the declared size, i.e. a header look-ahead the source
+            // did not disturb: look ahead until one attempt meets no source failure (what was
+            // read stays buffered, so every attempt gets further); give the step up otherwise
+            let mut undisturbed = false;
+            for _ in 0..20_000 {
+                let seen = transients.get();
+                if let Err(p) = declared_area(&st, &mut r) {
+                    return Verdict::fail(format!("step {} call {}: parsing the picture header panicked: {} (source: up to {} bytes per read, schedule {:?})", i, c, p, chunk, schedule));
+                }
+                if transients.get() == seen {
+                    undisturbed = true;
+                    break;
+                }
+            }
+            if !undisturbed {
+                break;
+            }
+            let seen = transients.get();
+            match one_call(&mut st, &mut r, i, c, &mut log) {
+                Err(m) => return Verdict::fail(format!("{} (source: up to {} bytes per read, schedule {:?})", m, chunk, schedule)),
+                Ok(true) => c += 1,
+                Ok(false) => {
+                    if transients.get() > seen && repeats < 4 {
+                        // the source failed during this call: the caller tries again
+                        repeats += 1;
+                        failed_calls += 1;
+                    } else {
+                        break;
+                    }
+                }
+            }
+        }
+    }
+    let mut key = opts as u64 ^ ((chunk as u64) << 8) ^ fnv64(&schedule);
+    for s in &steps {
+        key = key.rotate_left(11)
+            ^ match s {
+                Step::Decode(b) => fnv64(b),
+                Step::Stream(b, _) => fnv64(b) ^ 0x5757,
+                Step::Cleanup => 0xC1EA,
+            };
+    }
+    if failed_calls > 0 {
+        labels.push("a call failed on a source failure and was repeated");
+    }
+    if log.accepted > 0 {
+        labels.push("some call accepted");
+    }
+    labels.sort();
+    labels.dedup();
+    Verdict::pass_l(log.accepted > 0 || log.rejected_past_header > 0, key, labels)
+}
+
 pub fn cfg_for(tier: Tier) -> PicCfg {
     match tier {
         Tier::Quick => PicCfg { max_dim: 64, max_fixed_mbs: 48, budget: 500, ..PicCfg::quick() },
@@ -301,6 +384,11 @@ pub fn run(ctx: &Ctx) -> i32 {
     let cases = ctx.tier.pick(400_000u64, 5_000_000u64);
     start_watchdog(ctx, "hostile_histories", 20, 60);
     reports.push(tape_suite(ctx, "hostile_histories", cases, 6144, &move |g| history_case(g, &cfg)));
+    stop_watchdog();
+    let fcases = ctx.tier.pick(40_000u64, 600_000u64);
+    let fcfg = PicCfg { max_dim: 48, max_fixed_mbs: 48, budget: 300, extreme_aspect: false, ..cfg };
+    start_watchdog(ctx, "histories_over_failing_sources", 20, 60);
+    reports.push(tape_suite(ctx, "histories_over_failing_sources", fcases, 4096, &move |g| failing_source_case(g, &fcfg)));
     stop_watchdog();
     let mut extra = Map::new();
     extra.insert("max_area_samples".into(), json!(MAX_AREA));
@@ -319,7 +407,7 @@ pub fn run(ctx: &Ctx) -> i32 {
         ctx,
         reports,
         Summary {
-            rule: "Histories of 1..6 steps on one H263State under each of the four decoder-option combinations; a step is one picture's data in its own reader, several pieces concatenated in one reader decoded call after call, or a clean-up call. Data is a measured mix of valid pictures, semantic corruptions (surplus macroblocks, rewritten / zero / huge declared sizes, reference of another size, PQUANT 0, extreme escape levels, runs past coefficient 63, INTRADC 0/128/255, reserved codes, arbitrary PTYPE/PLUSPTYPE options, GOB start codes mid-picture, stuffing runs, type rewrites), bit-level corruptions (flips, inserted / deleted bits, truncation, splices, trailing garbage) and raw bytes. Oracle: every call returns Ok or Err - a panic (index, slice, overflow, division by zero, unwrap, assert; overflow checks and debug assertions are compiled in) or a confirmed hang is a violation. Non-trivial = some call got past the picture header (accepted, or rejected in the macroblock / block / prediction layer); distinct by the bytes of the history. Pictures whose declared area exceeds max_area_samples are skipped and counted.",
+            rule: "Histories of 1..6 steps on one H263State under each of the four decoder-option combinations; a step is one picture's data in its own reader, several pieces concatenated in one reader decoded call after call, or a clean-up call. Data is a measured mix of valid pictures, semantic corruptions (surplus macroblocks, rewritten / zero / huge declared sizes, reference of another size, PQUANT 0, extreme escape levels, runs past coefficient 63, INTRADC 0/128/255, reserved codes, arbitrary PTYPE/PLUSPTYPE options, GOB start codes mid-picture, stuffing runs, type rewrites), bit-level corruptions (flips, inserted / deleted bits, truncation, splices, trailing garbage) and raw bytes. Oracle: every call returns Ok or Err - a panic (index, slice, overflow, division by zero, unwrap, assert; overflow checks and debug assertions are compiled in) or a confirmed hang is a violation. Non-trivial = some call got past the picture header (accepted, or rejected in the macroblock / block / prediction layer); distinct by the bytes of the history. Pictures whose declared area exceeds max_area_samples are skipped and counted. histories_over_failing_sources: the same histories delivered through Read sources with short reads, ErrorKind::Interrupted and transient failures (WouldBlock / TimedOut / Other) on scheduled calls, each failed call repeated up to four times.",
             assumptions: vec![
                 "the declared size used for the memory exclusion is obtained by a look-ahead call of the decoder's own header parser (a panic there is reported as a violation)".into(),
                 "hangs: a case running > 20 s is re-executed alone in a fresh process with a 60 s limit; only a reproduced time-out is a violation".into(),
@@ -351,6 +439,12 @@ pub fn replay(suite: &str, case: &Value) -> Option<Verdict> {
             let tape = super::tape_of(case)?;
             let tier = if case["tier"].as_str() == Some("thorough") { Tier::Thorough } else { Tier::Quick };
             Some(history_case(&mut Gen::new(&tape), &cfg_for(tier)))
+        }
+        "histories_over_failing_sources" => {
+            let tape = super::tape_of(case)?;
+            let tier = if case["tier"].as_str() == Some("thorough") { Tier::Thorough } else { Tier::Quick };
+            let cfg = cfg_for(tier);
+            Some(failing_source_case(&mut Gen::new(&tape), &PicCfg { max_dim: 48, max_fixed_mbs: 48, budget: 300, extreme_aspect: false, ..cfg }))
         }
         _ => None,
     }
